@@ -322,3 +322,145 @@ def search_offset():
             if size != R * ng or not np.array_equal(off, want):
                 return {"labels": lab.tolist(), "ngroups": ng}, f"offset_labels({lab.tolist()}, {ng}) -> {np.asarray(off).tolist()}, size {size}; expected {want.tolist()}, size {R * ng}"
     return None
+
+
+# ---------------------------------------------------------------------------------------------
+# factorize_(by, axes, *, expected_groups, reindex, sort, fastpath)   (C07.tuple_key, C05.sentinel, C16)
+# 1-D label arrays, one or two groupers; the per-grouper codes come from the contract of _factorize_single
+# ---------------------------------------------------------------------------------------------
+
+
+class FactorizeSingleCallee:
+    """_factorize_single at a call site: (found groups, codes) with -1 <= codes[i] < len(groups), codes shaped like `by`.
+    (Range / Interval branches proved above; the pandas.factorize branch is an assumed contract.)"""
+
+    def __init__(self, min_groups=0):
+        self.calls = []
+        self.min_groups = min_groups
+
+    def __call__(self, ex, st, args, kwargs, node):
+        from .finalize import IndexRec
+
+        by = args[0]
+        k_ = len(self.calls)
+        groups = sym_seq(f"found_groups{k_}")
+        codes = sym_seq(f"codes{k_}")
+        i = fresh("i")
+        st.assume(z3.And(groups.length >= self.min_groups, codes.length == by.length))
+        st.assume(forall(i, z3.Implies(in_range(i, 0, codes.length), z3.And(codes.at(i) >= -1, codes.at(i) < groups.length)), patterns=[codes.at(i)]))
+        self.calls.append((by, groups, codes))
+        return (IndexRec(groups), codes)
+
+
+def callee_ravel(ex, st, args, kwargs, node):
+    """call-site use of the contract of _ravel_factorized proved above"""
+    c = ravel_contract(len(args))
+    env = {"factorized": tuple(args), "grp_shape": tuple(kwargs["grp_shape"])}
+    for r in c.requires(ex, env):
+        ex.oblige(st, r, ex._name("pre._ravel_factorized", node), "requires of _ravel_factorized: every grouper has at least one group, codes aligned and within [-1, n)")
+    res = sym_seq(f"raveled_{fresh('r').decl().name()}")
+    st.assume(res.length == args[0].length)
+    for _, f in c.ensures(ex, {"__entry__": env}, res):
+        st.assume(f)
+    return res
+
+
+def factorize_contract(nby, fastpath):
+    fs = FactorizeSingleCallee(min_groups=1 if nby > 1 else 0)
+
+    def params(ex):
+        return {"by": tuple(sym_seq(f"by{i}") for i in range(nby)), "axes": (0,), "expected_groups": None, "reindex": False, "sort": True, "fastpath": fastpath}
+
+    def requires(ex, env):
+        n = env["by"][0].length
+        return [n >= 0] + [b.length == n for b in env["by"]]
+
+    def ensures(ex, env, res):
+        if len(fs.calls) != nby:
+            return [("one_factorization_per_grouper", z3.BoolVal(False))]
+        group_idx, found, grp_shape, ngroups, size, props = res
+        codes = [c for _, _, c in fs.calls]
+        ns = [g.length for _, g, _ in fs.calls]
+        n = codes[0].length
+        i = fresh("i")
+        missing = lambda t: z3.Or([c.at(t) == -1 for c in codes])
+        key = (lambda t: codes[0].at(t)) if nby == 1 else (lambda t: codes[0].at(t) * ns[1] + codes[1].at(t))
+        total = ns[0] if nby == 1 else ns[0] * ns[1]
+        cl = [
+            ("one_axis_per_grouper", z3.And([z3.BoolVal(len(grp_shape) == nby)] + [grp_shape[k_] == ns[k_] for k_ in range(min(nby, len(grp_shape)))])),
+            ("number_of_groups_is_the_product", ngroups == total),
+            ("found_groups_handed_on_in_order", z3.BoolVal(len(found) == nby and all(f.labels is g for f, (_, g, _) in zip(found, fs.calls)))),
+            ("codes_aligned_with_the_labels", group_idx.length == n),
+            ("tuple_key_for_elements_with_all_labels_valid", forall(i, z3.Implies(z3.And(in_range(i, 0, n), z3.Not(missing(i))), group_idx.at(i) == key(i)))),
+        ]
+        if fastpath:
+            cl += [("missing_elements_keep_minus_one", forall(i, z3.Implies(z3.And(in_range(i, 0, n), missing(i)), group_idx.at(i) == -1))),
+                   ("size_is_number_of_groups", size == total), ("no_props", z3.BoolVal(props is None))]
+        else:
+            any_missing = z3.Exists([i], z3.And(in_range(i, 0, n), missing(i)))
+            off, sentinel, nanmask = props
+            cl += [("missing_elements_go_to_the_sentinel_slot", forall(i, z3.Implies(z3.And(in_range(i, 0, n), missing(i)), group_idx.at(i) == total))),
+                   ("sentinel_is_one_past_the_groups", z3.And(sentinel == total, z3.BoolVal(off is False))),
+                   ("size_has_room_for_the_sentinel_iff_something_is_missing", z3.And(z3.Implies(any_missing, size == total + 1), z3.Implies(z3.Not(any_missing), size == total))),
+                   ("nanmask_marks_exactly_the_missing_elements", z3.And(nanmask.length == n, forall(i, z3.Implies(in_range(i, 0, n), nanmask.at(i) == missing(i)))))]
+        return cl
+
+    def req2(ex, env):
+        return requires(ex, env)
+
+    c = Contract(qualname="factorize_", file="flox/core.py", prefix=f"C07.factorize_.nby{nby}.{'fastpath' if fastpath else 'props'}", params=params, requires=req2, ensures=ensures, serves=("C07", "C05", "C16"),
+                 assumed=("_factorize_single on the pandas.factorize branch: codes in [-1, number of groups found)", "1-D label arrays (n-D labels are flattened by the caller or offset by offset_labels, proved separately)",
+                          "for two groupers every grouper found at least one group (numpy.ravel_multi_index raises ValueError otherwise)"))
+    callees = {"_factorize_single": fs, "_ravel_factorized": callee_ravel, "FactorProps": lambda ex, st, a, k, n: tuple(a)}
+    c.search = search_factorize(nby, fastpath)
+    return c, callees, fs
+
+
+def all_factorize():
+    return [factorize_contract(nby, fp) for nby in (1, 2) for fp in (True, False)]
+
+
+def search_factorize(nby, fastpath):
+    """bounded search on the real factorize_: label arrays over {0, 1, 2, NaN} of length <= 3 (<= 2 for two groupers)"""
+
+    def search():
+        import itertools
+
+        import numpy as np
+        import pandas as pd
+
+        from flox.core import factorize_
+
+        nan = float("nan")
+        alpha = (0.0, 1.0, 2.0, nan)
+        for n in ((1, 2, 3) if nby == 1 else (1, 2)):
+            for flat in itertools.product(alpha, repeat=n * nby):
+                bys = [np.array(flat[k * n:(k + 1) * n]) for k in range(nby)]
+                per = [pd.factorize(b, sort=True) for b in bys]
+                ns = [len(u) for _, u in per]
+                if nby > 1 and min(ns) == 0:
+                    continue
+                total = int(np.prod(ns))
+                missing = np.zeros(n, dtype=bool)
+                for c, _ in per:
+                    missing |= c == -1
+                key = per[0][0] if nby == 1 else per[0][0] * ns[1] + per[1][0]
+                try:
+                    gi, found, shape, ngroups, size, props = factorize_(tuple(b.copy() for b in bys), axes=(0,), fastpath=fastpath)
+                except Exception as e:
+                    return {"by": [b.tolist() for b in bys], "fastpath": fastpath}, f"raised {type(e).__name__}: {e}"
+                bad = []
+                if tuple(shape) != tuple(ns) or ngroups != total:
+                    bad.append("number_of_groups_is_the_product")
+                exp = np.where(missing, -1 if fastpath else total, key)
+                if not np.array_equal(np.asarray(gi), exp):
+                    bad.append("tuple_key / missing slot")
+                if size != total + (0 if fastpath else int(missing.any())):
+                    bad.append("size")
+                if not fastpath and (props.nan_sentinel != total or not np.array_equal(props.nanmask, missing)):
+                    bad.append("props")
+                if bad:
+                    return {"by": [[("nan" if v != v else v) for v in b.tolist()] for b in bys], "fastpath": fastpath, "got": np.asarray(gi).tolist(), "expected": exp.tolist()}, f"clauses {bad}"
+        return None
+
+    return search
